@@ -208,6 +208,8 @@ impl Expr {
             _ => {}
         }
     }
+    /// a subquery expression anywhere below (through AND / OR / NOT …)
+    pub fn has_subquery_deep(&self) -> bool { self.has_subquery() }
     pub fn has_subquery(&self) -> bool {
         let mut h = false;
         self.visit(&mut |e| if matches!(e, Expr::Exists(..) | Expr::InSub(..) | Expr::Scalar(..)) { h = true });
